@@ -25,6 +25,17 @@ function canon_error(e) {
     return ['O', 0, n];
 }
 
+// the error class by exception type AND as the public classifier (exception_to_error_info: command line, editor
+// integrations) reports it; the two must agree
+const KINDS = {'query parsing': 'P', 'IO handling': 'IO', 'query execution': 'R'};
+function classified(e, rbql_csv) {
+    const ce = canon_error(e);
+    const kind = rbql_csv.exception_to_error_info(e)[0];
+    if (['P', 'IO', 'R'].includes(ce[0]) && KINDS[kind] !== ce[0])
+        return ['O', 0, `exception_to_error_info says '${kind}' for a ${e.constructor.name}`];
+    return ce;
+}
+
 const leftovers = [];
 process.on('exit', () => { for (const d of leftovers) { try { fs.rmSync(d, {recursive: true, force: true}); } catch (e) {} } });
 
@@ -39,7 +50,7 @@ module.exports.run_case = async function (c, repo) {
         try {
             await rbql_csv.query_csv(c.queryjs, inp, c.in_dlm, c.in_pol, outp, c.out_dlm, c.out_pol, enc, warns, false, null, '', c.bulk ? {bulk_read: true} : null);
         } catch (e) {
-            return {out: null, warnings: null, error: canon_error(e)};
+            return {out: null, warnings: null, error: classified(e, rbql_csv)};
         }
         const raw = fs.readFileSync(outp);
         return {out: raw.toString(enc === 'binary' ? 'latin1' : 'utf-8'), warnings: warn_kinds(warns), error: null};
